@@ -28,7 +28,7 @@ META = dict(
          "Payout attribution by balance deltas is only done when a gauge is the only one whose books show a payout in that denom in the block. "
          "In the model walk a farm message is followed by the real queue-activation routine run with a shifted clock; the random drivers let "
          "the queue run naturally. Governance changes (SwapFeeDistrDenom, SwapFeeBurnRate) are written with the liquidity keeper's "
-         "SetGenericParams; swap fees are sent to the pair's collector address (no swaps are executed); one pool per pair. "
+         "SetGenericParams; swap fees are sent to the pair's collector address (no swaps are executed). "
          "External reward programs: locker programs (real locker messages) and lend programs are exercised; the lend positions the lend programs pay to are "
          "fixture records written with the lend keeper's setters (app with kill switch on, so the unwrapped V2 borrow-liquidation sweep ignores them); "
          "vault / stable-mint programs only have their books projected (none is created).",
@@ -143,7 +143,7 @@ def run(c):
             os.remove(lnk)
     c.samples = [dict(id=s["id"], run=s["run"], a=s["a"], args=s["args"], parent=s["parent"],
                       st=dict(s["st"], users=s["st"].get("users", [])[:2]) if "users" in s["st"] else s["st"]) for s in smp if s]
-    need = ["swapDenomSwitch", "swapNewDenomPaid", "swapProRataPaid", "swapBurnEpochs", "swapSharedDenomPaid", "govDenomChanges",
+    need = ["swapDenomSwitch", "swapNewDenomPaid", "swapProRataPaid", "swapBurnEpochs", "swapSharedDenomPaid", "govDenomChanges", "multiPoolSwapPaid",
             "splits", "bigSplits", "gaugeEpochs", "proRataPaid", "masterPaid", "skippedEpochBlocks", "created", "rejected", "gaugesEnded",
             "noPriceEpochs", "swapFeePaid", "extPayBlocks", "lendPayBlocks", "bigStates", "roots"]
     zero = [k for k in need if st.get(k, 0) == 0]
@@ -155,15 +155,19 @@ def run(c):
         harness=outs,
         exhaustive=True,
         rule="(a) every (deposit, epochs) pair of the split table is one vector on the real SplitTotalAmountPerEpoch (+ seeded real-size vectors up to 2^64-1); "
-             "(b) every transition of the bounded MC_Gauge models (create/reject gauge, farm/unfarm by 2-3 farmers, price quote/base/off, time steps "
-             "below, at and beyond two epoch durations, master/child gauges) is executed once on the real application by walking the model's "
+             "(b) every transition of the bounded MC_Gauge models (create/reject gauge, farm/unfarm by 1-3 farmers, price quote/base/off, time steps "
+             "below, at and beyond two epoch durations, master/child gauges; model 'swapfee': the pools' swap-fee gauges, fee arrival, change of the "
+             "distribution denom, a created gauge paid in a fee denom) is executed once on the real application by walking the model's "
              "transition graph on nested cache contexts; (c) seeded behaviours: up to ~12 gauges over 3 pools, 4 farmers, own and shared reward denoms, "
-             "real-size amounts (6/8/18 decimals), natural queue activation, price loss/recovery, reserve donations, swap-fee gauges, locker reward "
+             "real-size amounts (6/8/18 decimals), natural queue activation, price loss/recovery, reserve donations, swap-fee gauges with fees arriving in the "
+             "current / a stale distribution denom, governance changes of SwapFeeDistrDenom and SwapFeeBurnRate, a ranged pool sharing pool 1's pair "
+             "(one fee collector for two gauges) in half of the runs, gauges created in the fee denoms, locker reward "
              "programs, lend (borrower) reward programs paid in a priced asset that gauges also use. Every recorded state is a TLC state of Trace_Gauge."),
         assumptions=["asset decimals are powers of ten (exact sdk.Dec valuation)",
                      "per-farmer payouts are attributed by balance deltas only when the gauge is the only payer of its denom in that block "
                      "(aggregate laws are judged always)",
                      "deposits of created gauges <= 10^18 (SplitTotalAmountPerEpoch takes the deposit as Uint64())",
-                     "one pool per pair (a pair's collector balance is not shared between pools); swap fees arrive by bank transfer to the collector",
+                     "conformance of swap-fee gauges is predicted for pairs with one pool (the value-weighted split of a collector between several pools is "
+                     "not transcribed; the C19 laws are judged for them too); swap fees arrive by bank transfer to the collector",
                      "external programs: locker and lend programs run (lend positions are fixture records written with the lend keeper's setters); "
                      "vault / stable-mint programs are projected but not created by the drivers"])
